@@ -289,7 +289,8 @@ OTHER_KINDS['nil-order:bigint'] = [raws('ob: bigint? = nil\nbq = B5 > ob\nr = 1'
 OTHER_KINDS['nil-order:missing-key'] = [raws('mp = map[str, int]\nmp["a"] = 1\nbq = mp["zz"] >= n\nr = 1')]
 OTHER_KINDS['nil-order:field'] = [raws('oq = Q17()\nbq = n >= oq.cap\nr = 1')]
 OTHER_KINDS['nil-order:in-condition'] = [raws('oi: int? = nil\nif oi > n {\n  r = 2\n}\nr = 1')]
-NIL_ORDER_KINDS += ['nil-order:both', 'nil-order:float', 'nil-order:bigint', 'nil-order:missing-key', 'nil-order:field', 'nil-order:in-condition']
+OTHER_KINDS['nil-order:loop-bound'] = [raws('mp = map[str, int]\nmp["a"] = 1\nfrom 0 to mp["zz"] {\n  r = 2\n}\nr = 1')]
+NIL_ORDER_KINDS += ['nil-order:loop-bound', 'nil-order:both', 'nil-order:float', 'nil-order:bigint', 'nil-order:missing-key', 'nil-order:field', 'nil-order:in-condition']
 
 _MISSING = 'mp = map[str, int]\nmp["a"] = 1\nms = map[str, str]\nms["a"] = "x"\n'
 NIL_ARG_KINDS = {
